@@ -74,6 +74,7 @@ def build_streams(rng, tier):
         Stream("exhaustive-small", exhaustive_small_lines(), h, **kw),
         Stream("structured+random", classify_lines(rng, tier), h, **kw),
         Stream("shape-and-accounting-any-n", big, h, **kw),
+        history_stream("C02", rng, tier),
     ]
 
 RULE = ("same generator as C01 (n<=5, thorough 6): closure of the canonical vertices == closure of the generators and dependents inside it, "
